@@ -81,6 +81,18 @@ impl Position {
 //@ include prelude/env_caches_front.rs
 //@ include prelude/env_caches_shapes.rs
 
+// `crate::path::normalize` (src/path.rs; resolves `.` and `..` lexically): an uninterpreted function of the path here.  The cache
+// key and the import-stack entry of an import are the NORMALIZED join of the checker's directory and the path as written (fix
+// 3b19e40: joined-but-not-normalized keys made cycles through `..` invisible).  Which spellings it identifies: bounded stand-in c09.
+pub uninterp spec fn spec_norm(p: Seq<char>) -> Seq<char>;
+pub open spec fn key_of(dir: Seq<char>, rel: Seq<char>) -> Seq<char> { spec_norm(spec_join(dir, rel)) }
+pub mod path {
+    use vstd::prelude::*;
+    use super::*;
+    #[verifier::external_body]
+    pub fn normalize(p: PathBuf) -> (r: PathBuf) ensures r@ == spec_norm(p@) { unimplemented!() }
+}
+
 //@ extract src/ast/typecheck/mod.rs :: impl Checker :: fn with_import_stack
 //@   rule R4
 //@   ret r
@@ -166,7 +178,7 @@ pub open spec fn resolve_post(
     match st0.dir {
         None => r is Import && r->Import_0 is Unresolved && c1 =~= c0,
         Some(dir) => {
-            let key = spec_join(dir, path);
+            let key = key_of(dir, path);
             if c0.contains_key(key) {
                 &&& c1 =~= c0
                 &&& match c0[key] {
@@ -221,6 +233,7 @@ pub open spec fn resolve_post(
 //@   subst "self.shape_cache .borrow_mut() .insert(resolved_path, resolved.clone());" => "cache.insert(resolved_path, resolved.clone());"
 // Seeded mutants. `hit_serves_the_first_importers_shape` is the PINNED tree's behaviour (the defect this unit found).
 //@   mutant hit_serves_the_first_importers_shape "return Self::import_shape_at(cached, pos);" => "return cached.clone();" expect resolve_import
+//@   mutant key_not_normalized "crate::path::normalize(working_dir.join(path))" => "working_dir.join(path)" expect resolve_import
 //@   mutant stored_under_the_unresolved_path ".insert(resolved_path, resolved.clone())" => ".insert(PathBuf::from(path), resolved.clone())" expect resolve_import
 //@   mutant looked_up_under_the_unresolved_path "get(&resolved_path)" => "get(&PathBuf::from(path))" expect resolve_import
 //@   mutant reads_the_unresolved_path "std::fs::read_to_string(&resolved_path)" => "std::fs::read_to_string(&PathBuf::from(path))" expect resolve_import
@@ -274,8 +287,8 @@ pub proof fn lemma_hit_is_what_a_fresh_resolution_yields(
     cb0: Map<Seq<char>, Shape>, cb1: Map<Seq<char>, Shape>, rb: Shape,
 )
     requires
-        ste.dir matches Some(d) && key == spec_join(d, pathe),
-        st.dir matches Some(d) && key == spec_join(d, path),
+        ste.dir matches Some(d) && key == key_of(d, pathe),
+        st.dir matches Some(d) && key == key_of(d, path),
         // E filled the slot
         !ce0.contains_key(key), resolve_post(ste, pathe, pose, ce0, ce1, re), re is Import && re->Import_0 is Resolved,
         // A finds what E stored (entries are never replaced: child_effect)
@@ -319,12 +332,12 @@ pub proof fn lemma_hit_depends_on_its_own_slot_only(
 )
     requires
         st.dir is Some,
-        ca0.contains_key(spec_join(st.dir->Some_0, path)), cb0.contains_key(spec_join(st.dir->Some_0, path)),
-        ca0[spec_join(st.dir->Some_0, path)] == cb0[spec_join(st.dir->Some_0, path)],
+        ca0.contains_key(key_of(st.dir->Some_0, path)), cb0.contains_key(key_of(st.dir->Some_0, path)),
+        ca0[key_of(st.dir->Some_0, path)] == cb0[key_of(st.dir->Some_0, path)],
         resolve_post(st, path, pos, ca0, ca1, ra), resolve_post(st, path, pos, cb0, cb1, rb),
     ensures same_import(ra, rb), ca1 =~= ca0, cb1 =~= cb0,
 {
-    let key = spec_join(st.dir->Some_0, path);
+    let key = key_of(st.dir->Some_0, path);
     if ca0[key] is Import && ca0[key]->Import_0 is Resolved {
         let fa = ra->Import_0->Resolved_1;
         let fb = rb->Import_0->Resolved_1;
@@ -340,11 +353,11 @@ pub proof fn lemma_failed_import_leaves_no_entry(
     st: CkState, path: Seq<char>, pos: Position, c0: Map<Seq<char>, Shape>, c1: Map<Seq<char>, Shape>, r: Shape,
 )
     requires
-        st.dir is Some, !c0.contains_key(spec_join(st.dir->Some_0, path)),
+        st.dir is Some, !c0.contains_key(key_of(st.dir->Some_0, path)),
         resolve_post(st, path, pos, c0, c1, r),
         r is TypeErr || (r is Import && r->Import_0 is Unresolved),
     ensures
-        !c1.contains_key(spec_join(st.dir->Some_0, path)),
+        !c1.contains_key(key_of(st.dir->Some_0, path)),
         // and every other entry is still there, unchanged
         forall|k: Seq<char>| #[trigger] c0.contains_key(k) ==> c1.contains_key(k) && c1[k] == c0[k],
 {
